@@ -241,7 +241,7 @@ func compare(run *rep.Run, ctx context.Context, r domain.ModelRegistry, ref map[
 			run.Violation("C10/"+kind+"/stats/total-models", fmt.Sprintf("stats say %d models, reference has %d", st.TotalModels, len(total)), wit(map[string]any{}))
 		}
 		for _, e := range eps {
-			if st.ModelsPerEndpoint[e] != len(ref[e]) {
+			if n := st.ModelsPerEndpoint[e]; n < len(ref[e]) || n > len(ref[e])+dupSlack[e] {
 				run.Violation("C10/"+kind+"/stats/models-per-endpoint", fmt.Sprintf("stats say %s has %d models, reference has %d", e, st.ModelsPerEndpoint[e], len(ref[e])), wit(map[string]any{}))
 			}
 		}
@@ -311,7 +311,15 @@ func genList(rng *rand.Rand) []string {
 	return l
 }
 
+// dupSlack[e]: how many entries of e's latest listing repeated a name already in it (such a
+// listing is kept as sent in the per-endpoint view, so the model count shown for the endpoint
+// may be up to that much higher than the number of distinct names).
+var dupSlack = map[string]int{}
+
 func sequentialHistory(run *rep.Run, rng *rand.Rand, unified bool, settleEach bool, h int) {
+	for k := range dupSlack {
+		delete(dupSlack, k)
+	}
 	ctx := context.Background()
 	r := newRegistry(unified)
 	kind := "base"
@@ -330,10 +338,16 @@ func sequentialHistory(run *rep.Run, rng *rand.Rand, unified bool, settleEach bo
 		switch x := rng.Intn(10); {
 		case x < 5:
 			l := genList(rng)
+			if len(l) > 0 && rng.Intn(5) == 0 { // a listing that names a model twice
+				d := l[rng.Intn(len(l))]
+				at := rng.Intn(len(l) + 1)
+				l = append(l[:at], append([]string{d}, l[at:]...)...)
+			}
 			err := r.RegisterModels(ctx, e, mi(l, rng.Intn(3)))
 			trace = append(trace, opRec{"register", e, l, fmt.Sprint(err)})
 			if err == nil {
 				ref[e] = setOf(l)
+				dupSlack[e] = len(l) - len(ref[e])
 			}
 			last = "replace"
 			if len(l) == 0 {
@@ -355,6 +369,7 @@ func sequentialHistory(run *rep.Run, rng *rand.Rand, unified bool, settleEach bo
 			trace = append(trace, opRec{"remove", e, nil, fmt.Sprint(err)})
 			if err == nil {
 				ref[e] = map[string]bool{}
+				dupSlack[e] = 0
 			}
 			last = "remove"
 		default:
